@@ -48,6 +48,9 @@ CLAIMED = {
  "C16": ("exploration", "keeper", "schedule exploration with the owned-schedule executor; exact reference model on sequential histories, possibility sets on interleaved ones; inode/content watcher for status.tag",
          "Readiness reports, resets, deadline, channel-state updates and queries (direct and GET /provision with ancient/current/far-future ticks) either sequentially (exact oracle: flags + finished tick model) or under generated schedules (possibility sets from which operations had definitely/possibly happened); a watcher thread checks that one inode of status.tag never shows two contents and every content is a complete message.",
          "Interleavings expressible by the executor only; the provision files live in the configured key directory of the worker's private tmpfs.", "4 C16"),
+ "C19": ("exploration", "pure", "property-based stateful testing of the three bounded stores with bound invariants checked after every operation",
+         "Histories of writes / multi-line writes / restarts on rolling logs left at or below the bound, sequences of rule-dump writes with varying max on pre-populated directories, and event bursts / reader consumption / flush waits on pre-populated event directories; after every step the count and size bounds hold, the oldest dumps go first, and a flush at the cap creates no file.",
+         "Instance APIs on scratch directories; leftover files come from an earlier run with the same settings.", "4 C19"),
  "C20": ("exploration", "pure", "exhaustive enumeration of all observation sequences to length 22 + property-based generation of long runs, against a reference automaton and trace predicates",
          "All 2^22 success/failure sequences (every shorter one is a prefix; predicates checked per step) plus generated sequences crossing the 20-failure threshold and the counters' saturation point, and generated notification histories, against a reference automaton, the statement's trace predicates and a reference rate limiter.",
          "Trusts: StatusState::update_state and ServiceState::update_service_state_entry are the only deciders of the reported health / notifications (how service_main uses them is not covered).", "4 C20"),
